@@ -474,6 +474,10 @@ def run(chk, replay=None):
                     chk.spec_drift(f"{need_adj[r['of']]}: term of {describe(rec)} differs structurally from the public function's term but agrees numerically at 6 seeded points")
 
     for sig, (detail, rep, wheres, n) in found.items():
+        if sig.startswith("width-formula:"):
+            # Gamma(s) away from s = m0^2 is not fixed by a sentence of C12: reported, never an alarm
+            chk.spec_drift(f"{sig}: {n} record(s) ({detail})")
+            continue
         chk.violation(sig, f"{n} record(s) rejected ({'; '.join(sorted(w for w in wheres if w)) or 'all'}); first: {detail}", rep)
 
     res = mc_future.result()
